@@ -27,6 +27,7 @@ EXPLANATION = ('read(write(v)) = v for each of the six dimension cases over a gh
                'lists x all subsets.')
 FUNCS = [TS + '._write_data', TS + '._write_to_nc_var', TS + '._read_from_nc_var', 'AEIC.trajectories.store:_create_dimensions']
 FILL = z3.Real('netcdf_fill_value')
+MASKED = z3.Real('numpy_ma_masked_constant')       # what an auto-masking variable returns for a fill slot: equal to nothing
 SPECIES_LISTS = {
     'prefix(CO2,H2O)': ['CO2', 'H2O'],
     'non-prefix(CO2,NOx,SO4)': ['CO2', 'NOx', 'SO4'],
@@ -42,8 +43,12 @@ class NcVar(Model):
         self.I = I
         self.vlen = vlen
         self.n_species, self.n_modes = n_species, n_modes
+        I.ctx.assume(MASKED != FILL)
         self.cells = {}        # (si, ti) -> (row, value)   for the row under test
         self.rows_written = []
+        # netCDF4 masks fill values on reading unless told otherwise (library default for every variable of a file that was
+        # created or opened without further ado): an unwritten slot then reads as the masked constant, not as the fill value
+        self.auto_mask = True
 
     def _split(self, idx):
         if not isinstance(idx, tuple):
@@ -83,15 +88,19 @@ class NcVar(Model):
             if same is True:
                 return v
             if same is False:
-                return FILL
+                return MASKED if self.auto_mask else FILL
             if I.ctx.branch(same):
                 return v
         # never written: fill value, or an empty array for a variable-length cell (observed natively)
-        return SArr(0, lambda k: FILL) if self.vlen else FILL
+        if self.vlen:
+            return SArr(0, lambda k: FILL)
+        return MASKED if self.auto_mask else FILL
 
     def py_getattr(self, I, name):
         if name == 'set_auto_mask':
-            return Builtin('set_auto_mask', lambda *a: None)
+            def set_auto_mask(flag):
+                self.auto_mask = bool(flag)
+            return Builtin('set_auto_mask', set_auto_mask, pure=False)
         if name == 'get_fill_value':
             return Builtin('get_fill_value', lambda: None if self.vlen else FILL)
         raise Unsupported('Variable.' + name)
@@ -821,21 +830,25 @@ def replay(payload):
             order = list(ThrustMode)[2:] + list(ThrustMode)[:2]
             t.tm_vals = ThrustModeValues({mo: float(i + 1) for i, mo in enumerate(order)})
             t.sp_tm = SpeciesValues({s: ThrustModeValues({mo: float(100 * s.value + i) for i, mo in enumerate(order)}) for s in vsp_e})
+            def compare(g, when):
+                for name in ('sp_scalar', 'sp_scalar2', 'sp_points', 'sp_tm'):
+                    want, got = getattr(t, name), getattr(g, name)
+                    if sorted(k.name for k in want.keys()) != sorted(k.name for k in got.keys()):
+                        problems.append(f'file species {file_sp} ({when}): field {name} written with {sorted(k.name for k in want.keys())} '
+                                        f'read back with {sorted(k.name for k in got.keys())}')
+                    elif not want.__eq__(got) and name != 'sp_points':
+                        problems.append(f'file species {file_sp} ({when}): field {name} values differ')
+                if dict(g.tm_vals) != dict(t.tm_vals):
+                    problems.append(f'({when}) thrust-mode field read back as {dict(g.tm_vals)} instead of {dict(t.tm_vals)}')
             try:
                 with TrajectoryStore.create(base_file=path) as ts:
                     ts.add(t)
+                    # read back from the file within the session that wrote it (what happens once the cache has evicted it)
+                    ts._trajectories.clear()
+                    compare(ts[0], 'read back in the writing session')
                 TrajectoryStore.active_in_thread = None
                 with TrajectoryStore.open(base_file=path) as r:
-                    g = r[0]
-                    for name in ('sp_scalar', 'sp_scalar2', 'sp_points', 'sp_tm'):
-                        want, got = getattr(t, name), getattr(g, name)
-                        if sorted(k.name for k in want.keys()) != sorted(k.name for k in got.keys()):
-                            problems.append(f'file species {file_sp}: field {name} written with {sorted(k.name for k in want.keys())} '
-                                            f'read back with {sorted(k.name for k in got.keys())}')
-                        elif not want.__eq__(got) and name != 'sp_points':
-                            problems.append(f'file species {file_sp}: field {name} values differ')
-                    if dict(g.tm_vals) != dict(t.tm_vals):
-                        problems.append(f'thrust-mode field read back as {dict(g.tm_vals)} instead of {dict(t.tm_vals)}')
+                    compare(r[0], 'reopened')
             except Exception as e:   # noqa
                 problems.append(f'file species {file_sp}, value species {val_sp}: {type(e).__name__}: {e}')
         # unset optional fields: stored as missing, must read back as None (not as a fresh trajectory's default)
